@@ -302,6 +302,23 @@ fn generate_enum_declaration(id: &str, tags: &[ast::Tag], _width: usize) -> Stri
         unknown_handler.push(format!(r#"raise EnumValueError("", "", "{id}", v)"#));
     }
 
+    if tag_decls.is_empty() {
+        // An enum declaring only ranges has no members, and calling a
+        // member-less IntEnum raises TypeError instead of ValueError:
+        // go directly to the range and default handling.
+        return format!(
+            r#"
+class {enum_name}(enum.IntEnum):
+
+    @staticmethod
+    def from_int(v: int) -> Union[int, '{enum_name}']:
+{unknown_handler}
+"#,
+            enum_name = id,
+            unknown_handler = indent(&unknown_handler.join("\n"), 2)
+        );
+    }
+
     format!(
         r#"
 class {enum_name}(enum.IntEnum):
